@@ -237,7 +237,8 @@ ParseHex(h) ==            \* text after '#': up to four pairs red, green, blue, 
       pair(i) == IF 2 * i <= n THEN 16 * HexVal(h[2 * i - 1]) + HexVal(h[2 * i]) ELSE IF i = 4 THEN 255 ELSE 0
   IN IF n > 8 THEN Silent
      ELSE IF \E i \in 1..n : ~IsHex(h[i]) /\ ~IsLetter(h[i]) THEN Silent  \* sign, blank: strtoul policy
-     ELSE IF \E i \in 1..n : ~IsHex(h[i]) THEN Refused
+     ELSE IF \E i \in 1..n : i % 2 = 1 /\ ~IsHex(h[i]) THEN Refused     \* a pair without any digit
+     ELSE IF \E i \in 1..n : ~IsHex(h[i]) THEN Silent                    \* digit + foreign letter
      ELSE IF n % 2 = 1 THEN Refused
      ELSE Ok(<<pair(4), pair(1), pair(2), pair(3)>>)
 ParseColor(c) ==
@@ -259,19 +260,24 @@ ASSUME ColourRoundTrip ==
 
 ---------------------------------------------------------------------------
 (* what a value denotes for a property type (Tier 1)                       *)
-NumPart(v) == SubSeq(v.n, 1, 2)
+\* type id of the member itself
+OwnType(pt) == IF pt.w = "u" THEN "u" ELSE IF Leq(D(0), pt.lo) THEN "y" ELSE "n"
 DenInt(pt, v) ==
   LET enc(n) == IF pt.w = "u" THEN EncU(n) ELSE EncI(n) IN
   IF v.f = "num" THEN IF ~IsInt(v.n) THEN Silent
                       ELSE IF Within(v.n, pt.lo, pt.hi) THEN Ok(enc(v.n)) ELSE Refused
-  ELSE IF IntTyped(v.f) THEN IF Within(v.n, pt.lo, pt.hi) THEN Ok(enc(v.n)) ELSE Refused
+  ELSE IF IntTyped(v.f) THEN
+       IF ~Within(v.n, pt.lo, pt.hi) THEN Refused
+       ELSE IF v.f \in {"i", OwnType(pt)} THEN Ok(enc(v.n)) ELSE Either(enc(v.n))   \* other widths: conversion policy
   ELSE IF v.f \in {"d", "f"} THEN IF IsInt(v.n) /\ Within(v.n, pt.lo, pt.hi) THEN Either(enc(v.n)) ELSE Refused
   ELSE IF v.f = "txt" THEN IF NonNumericWord(v.c) THEN Refused ELSE Silent
   ELSE IF v.f \in {"col", "fpt"} THEN Refused
   ELSE Silent
 DenReal(pt, v) ==
   IF v.f = "num" THEN IF pt.w = 32 /\ ~F32Exact(v.n) THEN Silent ELSE Ok(EncReal(v.n))
-  ELSE IF IntTyped(v.f) \/ v.f = "f" THEN IF pt.w = 32 /\ ~F32Exact(v.n) THEN Silent ELSE Ok(EncReal(v.n))
+  ELSE IF IntTyped(v.f) THEN IF pt.w = 32 /\ ~F32Exact(v.n) THEN Silent
+                             ELSE IF v.f = "i" THEN Ok(EncReal(v.n)) ELSE Either(EncReal(v.n))
+  ELSE IF v.f = "f" THEN IF pt.w = 32 /\ ~F32Exact(v.n) THEN Silent ELSE Ok(EncReal(v.n))
   ELSE IF v.f = "d" THEN IF pt.w = 64 THEN Ok(EncReal(v.n))
                          ELSE IF F32Exact(v.n) THEN Either(EncReal(v.n)) ELSE Silent
   ELSE IF v.f = "txt" THEN IF NonNumericWord(v.c) THEN Refused ELSE Silent
